@@ -133,6 +133,10 @@ func form(p *reflist.Plan) string {
 		return set("(mapcar 'car (mapcar 'cons " + a + " " + b + "))")
 	case "maplist2":
 		return set("(mapcar 'cadr (mapcar 'list " + a + " " + b + "))")
+	case "maprest1":
+		return set("(mapcar 'car (mapcar (lambda (&rest r) r) " + a + " " + b + "))")
+	case "maprest2":
+		return set("(mapcar 'cadr (mapcar (lambda (&rest r) r) " + a + " " + b + "))")
 	case "mapcar":
 		return set("(mapcar '1+ " + a + ")")
 	case "alias":
@@ -430,7 +434,7 @@ func instances(name string, t, a, b, c, maxN, x int, yield func(reflist.Op)) {
 var (
 	derivers = []string{"alias", "cons", "list*", "append1", "append", "append3", "cdr", "rest", "nthcdr", "last", "last1", "member",
 		"remove", "remove-if", "remove-duplicates", "remove-fe", "remove-if-fe", "remove-se", "remove-duplicates-fe", "delete-fe", "delete-se", "butlast", "butlast1", "subseq", "subseq1", "copy-list", "copy-seq",
-		"reverse", "mapcar", "mapcons", "maplist2", "push", "pop", "rplaca", "nreverse", "sort", "stable-sort", "delete", "delete-if", "delete-duplicates", "add", "add2", "nconc", "rplacd"}
+		"reverse", "mapcar", "mapcons", "maplist2", "maprest1", "maprest2", "push", "pop", "rplaca", "nreverse", "sort", "stable-sort", "delete", "delete-if", "delete-duplicates", "add", "add2", "nconc", "rplacd"}
 	mutators = []string{"setcar", "setnth", "setelt", "rplaca", "rplacd", "nconc", "nreverse", "sort", "stable-sort", "delete", "delete-if",
 		"delete-duplicates", "delete-fe", "delete-se", "add", "add2", "push", "pop", "cons", "append", "list*"}
 )
